@@ -15,7 +15,7 @@ fn project() -> VProject {
     VProject { codepage: 1252, modules: vec![
         VModule { name: "Module1".into(), stream_name: "Module1".into(), source: b"Sub A()\r\n  MsgBox \"hi\"\r\nEnd Sub\r\n".to_vec(), text_offset: 0, mode: 0, class_module: false, read_only: false, private: false },
         VModule { name: "Big".into(), stream_name: "Big".into(), source: (0..9000u32).map(|i| b"Rem line of a long module\r\n"[(i % 27) as usize]).collect(), text_offset: 7, mode: 0, class_module: true, read_only: false, private: false },
-    ], refs: vec![VRef { name: "stdole".into(), kind: RefKind::Registered }], compat_version: false }
+    ], refs: vec![VRef { name: "stdole".into(), kind: RefKind::Registered }], compat_version: false, descriptive: false }
 }
 
 fn build(ch: &mut Chooser) -> (Vec<u8>, String) {
